@@ -12,7 +12,7 @@ INFO = {
                "integer OR of two literals; that an integer literal becomes an integer payload by a direct integer "
                "parse of the right width and a double goes through the one f64->JSON normalisation whose "
                "integrality window is exact (signed zeros included); input is pulled one byte at a time through io::Bytes "
-               "and a short read is never taken for the end of input. No stage but the limiter can stop the read loop (Break origin).",
+               "and a short read is never taken for the end of input. No stage but the limiter can stop the read loop (Break origin). No parse error is built under a test of the reader's own state (only of bytes read); parse_to_double accepts every finite double unchanged (zeros, subnormals, f64::MAX) and rejects inf / NaN; for representative non-surrogate values a \\u escape appends exactly char::from_u32(value) and reads nothing more.",
     "not_decided": "That values come out unchanged as a whole (UTF-8 decoding by String::from_utf8, str::parse, one "
                    "row per value at run time): those are run-time value statements.",
     "trusted": ["sa/tables/rfc8259.toml (transcribed from RFC 8259)", "std: str::parse::<u64|i64|f64>, String::from_utf8"],
@@ -32,6 +32,7 @@ def run(ctx, rep):
     NR.int_ctor(rep, lib)
     NR.float_window(rep, lib)
     NR.float_ctor(rep, lib)
+    NR.double_accept(rep, lib)
     # nothing but the limiter may stop the read loop: a Break from anywhere else silently drops the values that follow
     from rules import pipeline_rules as _PL
     _PL.break_origin(rep, lib)
